@@ -267,7 +267,8 @@ func (exp *compactExpiration) rawExpireAt(dataType byte, key []byte, rawValue []
 	switch dataType {
 	case HashType, KVType, SetType, BitmapType, ListType, ZSetType:
 		h := newHeaderMetaV1()
-		if when >= int64(math.MaxUint32-1) {
+		if when >= int64(math.MaxUint32-1) || when < 0 {
+			// (a negative second: ts/1e9 + duration overflowed)
 			return nil, errExpOverflow
 		}
 		_, err := h.decode(rawValue)
